@@ -241,4 +241,105 @@ theorem ratToFloat_contract_core (B : Nat) (hB : 2 ≤ B) (m : Float.Mode) (c : 
   rw [hv1, hv2] at key
   exact key
 
+
+/-! ### the nearest modes -/
+
+def Nearest : Float.Mode → Prop
+  | .halfEven | .halfAway => True
+  | _ => False
+
+theorem nearest_abs (m : Float.Mode) (hm : Nearest m) (N D n : Int) (h : ModeSpec m N D n) :
+    |2 * N - 2 * (n * D)| ≤ D := by
+  cases m <;> simp only [Nearest] at hm <;> simp only [ModeSpec, IsNearestEven, IsNearestAway] at h <;> exact h.1
+
+theorem nearest_exact (m : Float.Mode) (hm : Nearest m) (q D : Int) (hD : 0 < D) : ModeSpec m (q * D) D q := by
+  have e : 2 * (q * D) - 2 * (q * D) = 0 := by ring
+  cases m <;> simp only [Nearest] at hm <;> simp only [ModeSpec, IsNearestEven, IsNearestAway] <;> rw [e, abs_zero] <;>
+    exact ⟨le_of_lt hD, fun h => by omega⟩
+
+theorem nearest_within (m : Float.Mode) (hm : Nearest m) (N D n : Int) (hD : 0 < D) (h : ModeSpec m N D n) :
+    (n - 1) * D < N ∧ N < (n + 1) * D := by
+  have ha := abs_le.mp (nearest_abs m hm N D n h)
+  have e1 : (n + 1) * D = n * D + D := by ring
+  have e2 : (n - 1) * D = n * D - D := by ring
+  rw [e1, e2]; constructor <;> omega
+
+theorem nearest_sign (m : Float.Mode) (hm : Nearest m) (N D n : Int) (hD : 0 < D) (h : ModeSpec m N D n)
+    (hbig : D ≤ |N|) : (0 < N → 0 < n) ∧ (N < 0 → n < 0) := by
+  have ha := abs_le.mp (nearest_abs m hm N D n h)
+  constructor
+  · intro hN
+    rw [abs_of_pos hN] at hbig
+    by_contra hc
+    have : n * D ≤ 0 := Int.mul_nonpos_of_nonpos_of_nonneg (by omega) (le_of_lt hD)
+    omega
+  · intro hN
+    rw [abs_of_neg hN] at hbig
+    by_contra hc
+    have : 0 ≤ n * D := Int.mul_nonneg (by omega) (le_of_lt hD)
+    omega
+
+theorem nearest_scale (m : Float.Mode) (hm : Nearest m) (s K n E : Int) (hE : 0 < E) (h : ModeSpec m s K n) :
+    ModeSpec m (s * E) (K * E) n := by
+  have e : 2 * (s * E) - 2 * (n * (K * E)) = (2 * s - 2 * (n * K)) * E := by ring
+  have hab : |2 * (s * E) - 2 * (n * (K * E))| = |2 * s - 2 * (n * K)| * E := by rw [e, abs_mul, abs_of_pos hE]
+  cases m <;> simp only [Nearest] at hm <;> simp only [ModeSpec, IsNearestEven, IsNearestAway] at h ⊢ <;> rw [hab]
+  · exact ⟨mul_le_mul_of_nonneg_right h.1 (le_of_lt hE), fun ht => h.2 (mul_right_cancel₀ (ne_of_gt hE) ht)⟩
+  · refine ⟨mul_le_mul_of_nonneg_right h.1 (le_of_lt hE), fun ht => ?_⟩
+    have := h.2 (mul_right_cancel₀ (ne_of_gt hE) ht)
+    have e2 : n * (K * E) = (n * K) * E := by ring
+    rw [e2, abs_mul, abs_mul, abs_of_pos hE]
+    exact mul_lt_mul_of_pos_right this hE
+
+/-- two nearest roundings compose when the coarser unit is even and the second rounding is not an exact tie (then the
+    composed error is strictly below half a coarse unit: no tie remains to be broken) -/
+theorem nearest_compose (m : Float.Mode) (hm : Nearest m) (N D n1 M n2 : Int) (hD : 0 < D) (_hM : 0 < M)
+    (h1 : ModeSpec m N D n1) (h2 : ModeSpec m n1 M n2) (hev : M % 2 = 0) (hnt : |2 * n1 - 2 * (n2 * M)| ≠ M) :
+    ModeSpec m N (D * M) n2 := by
+  have a1 := abs_le.mp (nearest_abs m hm N D n1 h1)
+  have a2 := nearest_abs m hm n1 M n2 h2
+  obtain ⟨c, hc⟩ : ∃ c : Int, 2 * n1 - 2 * (n2 * M) = 2 * c := ⟨n1 - n2 * M, by ring⟩
+  rw [hc] at a2 hnt
+  have hb : -(M - 2) ≤ 2 * c ∧ 2 * c ≤ M - 2 := by
+    rcases abs_cases (2 * c) with ⟨e, _⟩ | ⟨e, _⟩ <;> rw [e] at a2 hnt <;> omega
+  have k1 : D * (2 * c) ≤ D * (M - 2) := mul_le_mul_of_nonneg_left hb.2 (le_of_lt hD)
+  have k2 : D * (-(M - 2)) ≤ D * (2 * c) := mul_le_mul_of_nonneg_left hb.1 (le_of_lt hD)
+  have e : 2 * N - 2 * (n2 * (D * M)) = (2 * N - 2 * (n1 * D)) + D * (2 * c) := by rw [← hc]; ring
+  have e3 : D * (M - 2) = D * M - 2 * D := by ring
+  have e4 : D * (-(M - 2)) = -(D * M) + 2 * D := by ring
+  have hstrict : |2 * N - 2 * (n2 * (D * M))| < D * M := by
+    rw [e, abs_lt]
+    constructor <;> omega
+  cases m <;> simp only [Nearest] at hm <;> simp only [ModeSpec, IsNearestEven, IsNearestAway] <;>
+    exact ⟨le_of_lt hstrict, fun h => absurd h (ne_of_lt hstrict)⟩
+
+theorem icontract_of_nearest (m : Float.Mode) (hm : Nearest m) (D X n : Int) (_hD : 0 < D)
+    (h : ModeSpec m X D n) (hne : n * D ≠ X) (a : Rounding) (hadd : a = .AddOne → X < n * D)
+    (hsub : a = .SubOne → n * D < X) : IContract m D X (n * D) (some a) := by
+  have ha := abs_le.mp (nearest_abs m hm X D n h)
+  refine ⟨hne, by simp, ?_, ?_, fun hf => hadd (by simpa using hf), fun hf => hsub (by simpa using hf)⟩
+  · cases m <;> simp only [Nearest] at hm <;> simp only [Mode.isHalf, if_true] <;> constructor <;> omega
+  · cases m <;> simp only [Nearest] at hm <;> trivial
+
+/-- **`RBig::to_float` in HalfEven / HalfAway, even base: correctly rounded whenever the SECOND rounding is not an
+    exact tie** (the digits `convert_int` drops from the first-rounded quotient are not exactly half a unit) -/
+theorem ratToFloat_contract_nearest_no_tie (B : Nat) (hB : 2 ≤ B) (hBe : B % 2 = 0) (m : Float.Mode) (hm : Nearest m)
+    (c : Coarse) (hc : CoarseSound c) (num : Int) (den p : Nat) (hn : num ≠ 0) (hd : 0 < den) (hp : 1 ≤ p)
+    (hov : p + ilogB B (den : Int) < 2 ^ 64)
+    (Hnotie : ∀ k : Nat, k = (FRepr.new B (toFloatN1 B m num den p) 0).digits B - p →
+        2 * |(splitDigits B (FRepr.new B (toFloatN1 B m num den p) 0).signif k).2| ≠ ((B ^ k : Nat) : Int)) :
+    ∃ r, ratToFloat B m c num den p = .ok r ∧
+      Contract B m p ((num : ℚ) / (den : ℚ)) (r.1.toRat B) r.2 := by
+  refine ratToFloat_contract_core B hB m c hc num den p hn hd hp hov (fun M => M % 2 = 0) ?_
+    (fun q D hD => nearest_exact m hm q D hD) (fun N D n hD h => nearest_within m hm N D n hD h)
+    (fun N D n hD h hb => nearest_sign m hm N D n hD h hb) (fun s K n E hE h => nearest_scale m hm s K n E hE h)
+    (fun N D n1 M n2 hD hM h1 h2 _ hQ hnt => nearest_compose m hm N D n1 M n2 hD hM h1 h2 hQ hnt)
+    (fun D X n hD h hne a hadd hsub => icontract_of_nearest m hm D X n hD h hne a hadd hsub) Hnotie
+  intro k z hk
+  have h2 : (2 : Int) ∣ ((B ^ k : Nat) : Int) := by
+    have hb : 2 ∣ B := Nat.dvd_of_mod_eq_zero hBe
+    have := dvd_pow hb (by omega : k ≠ 0)
+    exact_mod_cast this
+  exact Int.emod_eq_zero_of_dvd (Dvd.dvd.mul_right h2 _)
+
 end Dashu.Model.Conv
